@@ -28,16 +28,23 @@ pub struct World {
 }
 
 pub fn world(ctx: &mut Ctx, generated_key: bool) -> Option<World> {
-    let book = ctx.book.clone();
-    let (kp, kpd): (KeyPair<5>, KpD) = if generated_key { gen_keypair::<5>(ctx, &[])? } else { des_keypair::<5>(ctx) };
+    let (_kp, kpd): (KeyPair<5>, KpD) = if generated_key { gen_keypair::<5>(ctx, &[])? } else { des_keypair::<5>(ctx) };
     let rev_h = nonzero(&mut ctx.prng);
     let rev_g = nonzero(&mut ctx.prng);
+    let (_rp, rpd, _, _) = rp_decoded(ctx);
+    world_from(ctx, &kpd, rev_h, rev_g, &rpd)
+}
+
+/// a configuration assembled from given parts (to vary one component at a time)
+pub fn world_from(ctx: &mut Ctx, kpd: &KpD, rev_h: Scalar, rev_g: Scalar, rpd: &RpD) -> Option<World> {
+    let book = ctx.book.clone();
+    let kp: KeyPair<5> = wire::keypair::<5>(&book, kpd).ok()?;
     let rev: PedersenParameters<G1Projective, 1> = wire::ped_g1::<1>(&book, &rev_h, &[rev_g]);
-    let (rp, rpd, _, _) = rp_decoded(ctx);
+    let rp: zkabacus_crypto::RangeConstraintParameters = wire::de(&rpd.bytes(&book)).ok()?;
     let merchant = merchant::Config::from_parts(kp, rev, rp);
     let (pk, rev2, rp2) = merchant.extract_customer_config_parts();
     let customer = customer::Config::from_parts(pk, rev2, rp2);
-    Some(World { kpd, rev_h, rev_g, rpd, merchant, customer })
+    Some(World { kpd: kpd.clone(), rev_h, rev_g, rpd: rpd.clone(), merchant, customer })
 }
 
 /// SHA3-256 with the independent implementation (rust-crypto)
